@@ -58,21 +58,25 @@ Definition has_err_action (l : list action) : bool :=
 (* Hist: callbacks (no Drain: the send loop runs concurrently), then Dispose.
    obs_sent = what the fake stream received; obs_result 1 = the call returned
    a resolver error, 2 = "directive disposed".
+   obs_quiescent = what the stream had received once the call was quiescent after the last
+   callback and BEFORE Dispose (callbacks are also delivered from inside strm.Send).
    Without a resolver error the sent stream is schedule independent: exactly
    the queued responses; with one, it is a prefix and the call returns either way. *)
 Inductive c36_case :=
-| Hist (l : list action) (obs_sent : list resp) (obs_result : nat)
+| Hist (l : list action) (obs_quiescent : list resp) (obs_sent : list resp) (obs_result : nat)
 | CidEnc (service server obs_bytes : bytes)
 | CidDec (buf : bytes) (obs : option (bytes * bytes)).
 
 Definition c36_agree (c : c36_case) : bool :=
   match c with
-  | Hist l sent res =>
+  | Hist l q sent res =>
       let '(s, out) := run init (l ++ [Dispose]) in
       if has_err_action l then
-        is_prefix sent out && (Nat.eqb res 1 || Nat.eqb res 2)
+        is_prefix sent out && (Nat.eqb res 1 || Nat.eqb res 2) && is_prefix q out
       else
         list_eqb resp_eqb sent out && Nat.eqb res 2
+        && (let sq := fst (run init (l ++ [Drain])) in
+            negb (woken sq) && list_eqb resp_eqb (Access.sent sq) q)
         && (let '(s2, _) := step s Drain in Nat.eqb (result s2) 2 && list_eqb resp_eqb (Access.sent s2) sent)
   | CidEnc svc srv obs => bytes_eqb (encode_req svc srv) obs
   | CidDec buf obs =>
